@@ -49,7 +49,9 @@ var zeroOrigin Origin
 // In particular, the scheme and port of the resulting origin are guaranteed
 // to be valid, but its host isn't.
 func Parse(str string) (Origin, bool) {
-	const maxOriginLen = maxSchemeLen + len(schemeHostSep) + maxHostPortLen
+	// 1 for the trailing full stop of an absolute domain name,
+	// which maxHostLen does not account for
+	const maxOriginLen = maxSchemeLen + len(schemeHostSep) + maxHostPortLen + 1
 	if len(str) > maxOriginLen {
 		return zeroOrigin, false
 	}
